@@ -52,9 +52,11 @@ def TraceDb.traceIds (d : TraceDb) : List Bytes := dedup (d.attrs.map (·.traceI
 /-- the index with the two kinds of raw-text expressions of the portion filter as computed columns:
     `cityHash64(trace_id) % n` (for the hash function `hash`) and `unhex('<id>')` for the rendering `idText` of every
     trace id of the index -/
+def hashName (n : Nat) : String := "cityHash64(trace_id) % " ++ toString (n : Int)
+def unhexName (t : String) : String := "unhex('" ++ t ++ "')"
+
 def portionCols (hash : Bytes → Nat) (idText : Bytes → String) (n : Nat) (ids : List Bytes) (tr : Bytes) : List (String × Val) :=
-  ("cityHash64(trace_id) % " ++ toString (n : Int), Val.int ((hash tr % n : Nat) : Int)) ::
-    ids.map (fun t => ("unhex('" ++ idText t ++ "')", Val.str t))
+  (hashName n, Val.int ((hash tr % n : Nat) : Int)) :: ids.map (fun t => (unhexName (idText t), Val.str t))
 
 def TraceDb.withPortionCols (d : TraceDb) (hash : Bytes → Nat) (idText : Bytes → String) (n : Nat) : TraceDb :=
   { d with attrs := d.attrs.map (fun a => { a with extra := portionCols hash idText n d.traceIds a.traceId }) }
